@@ -96,7 +96,7 @@ Proof.
   { unfold construct. rewrite Hm. eexists. eexists. split; reflexivity. }
   destruct Hlog0 as (st & amb & Hc & Hl0). rewrite Hc in H.
   assert (Hrun : run_sub env o st = (SOk v, s')).
-  { destruct amb as [[ix sh]|]; [|exact H]. destruct (f_autocomplete feat); [inv H|exact H]. }
+  { destruct amb as [[ix sh]|]; [inv H|exact H]. }
   destruct (eval_good_all K env) as (_ & _ & Hgood). destruct (Hgood o Hk) as [Hreach _].
   pose proof (Hreach st) as R. rewrite Hrun in R. cbn in R.
   destruct (reach_ext _ _ _ R) as [l E].
